@@ -99,7 +99,7 @@ class Interp(Exec):
             return self.force(st, v) if isinstance(v, VLazy) else v
         if st.frame.spec or True:
             if name in self.ctx.specfuncs and st.frame.spec:
-                return VFunc("spec", name=name, node=self.ctx.specfuncs[name])
+                return self.specname(st, name)
         fi = self.frame_finfo(st)
         if fi is not None:
             m = fi.module
@@ -119,7 +119,7 @@ class Interp(Exec):
                 q = m.imports[name]
                 return self.imported(q)
         if name in self.ctx.specfuncs:
-            return VFunc("spec", name=name, node=self.ctx.specfuncs[name])
+            return self.specname(st, name)
         if name in BUILTIN_NAMES or name in SPEC_BUILTINS or name in SPEC_FUNCS:
             return VFunc("builtin", name=name)
         if name in ("True", "False", "None"):
@@ -129,6 +129,15 @@ class Interp(Exec):
         if name in BUILTIN_CLASSES:
             return VClass(name)
         raise Unsupported(f"unknown name {name}")
+
+    def specname(self, st, name):
+        x = self.ctx.specfuncs[name]
+        if isinstance(x, tuple) and x[0] == "const":
+            c = self.const(x[1])
+            if isinstance(c, tuple) and c[0] == "list":
+                return self.alloc(st, HList(c[1]))
+            return c
+        return VFunc("spec", name=name, node=x)
 
     def frame_finfo(self, st):
         f = st.frame
@@ -247,6 +256,10 @@ class Interp(Exec):
 
     def to_str(self, st, v, fmt=None):
         v = self.force(st, v)
+        if isinstance(v, VDyn):
+            return self.dyn_apply(st, v, lambda x: self.to_str(st, x, fmt))
+        if isinstance(v, VBool) and fmt is None:
+            return t_ite(v.t, z3.StringVal("True"), z3.StringVal("False"))
         if fmt is not None:
             spec = "".join(x.value for x in fmt.values if isinstance(x, ast.Constant))
             return self.opaque_str(st, "fmt:" + spec, v)
@@ -301,6 +314,12 @@ class Interp(Exec):
         st.pc.append(c)
         try:
             return fn()
+        except NeedSplit:
+            del st.pc[n:]
+            cs = z3.simplify(c)
+            if z3.is_true(cs) or self.implied(st, cs):
+                raise
+            raise NeedSplit(cs)
         except Unsupported:
             # under an infeasible guard the value is irrelevant
             del st.pc[n:]
@@ -384,6 +403,10 @@ class Interp(Exec):
         return self.binop(st, node.op, a, b, node)
 
     def binop(self, st, op, a, b, node=None):
+        if isinstance(a, VDyn):
+            return self.dyn_apply(st, a, lambda x: self.binop(st, op, x, b, node))
+        if isinstance(b, VDyn):
+            return self.dyn_apply(st, b, lambda x: self.binop(st, op, a, x, node))
         if isinstance(a, VLin) or isinstance(b, VLin):
             return self.lin_binop(st, op, a, b, node)
         if isinstance(a, NUM) and isinstance(b, NUM):
@@ -474,6 +497,10 @@ class Interp(Exec):
         return VBool(t_and(*acc)) if all(z3.is_bool(x) for x in acc) else acc[0]
 
     def compare(self, st, op, a, b, node=None):
+        if isinstance(a, VDyn):
+            return self.dyn_apply(st, a, lambda x: self.compare(st, op, x, b, node))
+        if isinstance(b, VDyn) and not isinstance(op, (ast.In, ast.NotIn)):
+            return self.dyn_apply(st, b, lambda x: self.compare(st, op, a, x, node))
         if isinstance(op, ast.Eq):
             return self.eq(st, a, b)
         if isinstance(op, ast.NotEq):
@@ -545,6 +572,9 @@ class Interp(Exec):
             return z3.Contains(cont.t, x.t)
         if isinstance(cont, VTuple):
             return t_or(*[self.eq(st, i, x) for i in cont.items])
+        if isinstance(cont, VFunc) and cont.kind == "objdict":
+            h = self.resolve(st, cont.recv)
+            return t_or(*[self.eq(st, VStr(n), x) for n in self.schema.fields(h.cls)])
         if isinstance(cont, VFam):
             return self.exists(cont.binders, t_and(cont.guard, self.eq(st, cont.elem, x)))
         if isinstance(cont, VRef):
@@ -590,7 +620,7 @@ class Interp(Exec):
                     return self.load(st, VRef(obj.root, obj.path + (("f", name),)))
                 return VFunc("bound", recv=obj, name=name)
             return VFunc("bound", recv=obj, name=name)
-        if isinstance(obj, (VStr, VTuple, VFam, VInt, VReal)):
+        if isinstance(obj, (VStr, VTuple, VFam, VInt, VReal, VDyn)):
             return VFunc("bound", recv=obj, name=name)
         if isinstance(obj, VModule):
             return self.imported(obj.name + "." + name)
@@ -702,13 +732,22 @@ class Interp(Exec):
         ok, name = pyconst(idx)
         if ok:
             return self.getattr(st, recv, name, node)
-        # symbolic attribute name: split over the schema's field names
+        # symbolic attribute name: multiway split over the schema's field names
         names = self.schema.fields(h.cls)
         self.oblige(st, "keyerror", t_or(*[idx.t == n for n in names]), where=self.where(node, st))
+        return self.getattr(st, recv, self.pick_name(st, idx, names), node)
+
+    def pick_name(self, st, idx, names):
         for n in names:
-            if self.decide(st, idx.t == z3.StringVal(n)):
-                return self.getattr(st, recv, n, node)
-        raise Unsupported("attribute name outside the schema")
+            c = idx.t == z3.StringVal(n)
+            if any(p.eq(c) for p in st.pc):
+                return n
+        cands = [n for n in names if not self.implied(st, idx.t != z3.StringVal(n))]
+        if len(cands) == 1 and self.implied(st, idx.t == z3.StringVal(cands[0])):
+            return cands[0]
+        if not cands:
+            raise Unsupported("attribute name outside the schema (infeasible path)")
+        raise NeedSplit(None, alts=[idx.t == z3.StringVal(n) for n in cands])
 
     def slice(self, st, obj, sl, node):
         lo = self.force(st, self.ev(sl.lower, st)) if sl.lower is not None else None
